@@ -25,6 +25,7 @@ def run(chk):
     r3(chk, prog, m)
     r5(chk, prog, m)
     r6(chk, prog, m)
+    r7(chk, prog, m)
     own.rule_leaks(chk, prog, "C20.R4", only_functions={"json_object_from_fd_ex", "json_object_from_file", "json_object_to_file_ext",
                                                          "_json_object_to_fd", "json_object_to_fd"}, floor=4)
     chk.undecided_clauses += [
@@ -708,3 +709,46 @@ def r6(chk, prog, m):
                             "stays behind the newly written one and the file is not the serialization of the tree"
                             % (fl.v, "O_TRUNC" if not fl.v & O_TRUNC else "O_CREAT"))
     chk.floor(rid, n, 1, "open() calls for writing")
+
+
+def r7(chk, prog, m):
+    """the failure test of open()"""
+    rid = "C20.R7"
+    chk.rule(rid, "the result of open() is tested for failure as 'negative' (or '== -1'): 0 is a descriptor like any other (it is what "
+                  "open returns when standard input is closed)")
+    from ..cfg import cfg_of
+    n = 0
+    for f in [g for g in m.functions.values() if not g.is_decl]:
+        cfg = cfg_of(f)
+        for i in f.instrs():
+            if i.op != "call" or i.callee not in ("open", "open64", "openat", "creat") or i.res is None:
+                continue
+            regs = {i.res}
+            work = [i.res]
+            while work:
+                r = work.pop()
+                for u in cfg.users(r):
+                    if u.op in ("sext", "zext", "trunc") and u.res not in regs:
+                        regs.add(u.res)
+                        work.append(u.res)
+            cmps = [u for r in regs for u in cfg.users(r) if u.op == "icmp"]
+            for c in cmps:
+                n += 1
+                chk.touched(f)
+                a, b = c.ops
+                pred = c.x["pred"]
+                if b.kind == "reg" and b.v in regs and a.kind == "int":
+                    a, b = b, a
+                    pred = {"slt": "sgt", "sgt": "slt", "sle": "sge", "sge": "sle"}.get(pred, pred)
+                if b.kind != "int":
+                    chk.undecided(rid, f.name, "test of the descriptor", c.locstr(), "the descriptor is compared with a non-constant")
+                    continue
+                ok = (pred in ("slt", "sge") and b.v == 0) or (pred in ("eq", "ne", "sgt", "sle") and b.v == -1)
+                if ok:
+                    chk.proven(rid, f.name, "test of the descriptor", c.locstr(), "%s %d" % (pred, b.v))
+                else:
+                    chk.refuted(rid, f.name, "test of the descriptor", c.locstr(),
+                                "the result of open() is tested with '%s %d': when open() returns 0 (standard input closed) a file that "
+                                "was opened successfully is treated as a failure - reported as an error and its descriptor never closed"
+                                % (pred, b.v))
+    chk.floor(rid, n, 1, "tests of an open() result")
